@@ -81,13 +81,24 @@ One can reverse a captured panic stack trace as follows:
 				switch node := node.(type) {
 
 				// Replace names.
-				// TODO: do var names ever show up in output?
 				case *ast.FuncDecl:
 					addHashedWithPackage(node.Name.Name)
 				case *ast.TypeSpec:
 					addHashedWithPackage(node.Name.Name)
+				case *ast.ValueSpec:
+					// Package-level variable names, which "garble map" lists too.
+					for _, name := range node.Names {
+						if obj, ok := tf.info.Defs[name].(*types.Var); ok && obj.Parent() == tf.pkg.Scope() {
+							addHashedWithPackage(name.Name)
+						}
+					}
 				case *ast.Field:
 					for _, name := range node.Names {
+						if fn, ok := tf.info.ObjectOf(name).(*types.Func); ok {
+							// A method declared in an interface type.
+							addHashedWithPackage(fn.Name())
+							continue
+						}
 						obj, _ := tf.info.ObjectOf(name).(*types.Var)
 						if obj == nil || !obj.IsField() {
 							continue
